@@ -43,6 +43,17 @@ CHECKS['C12'] = dict(level='exploration',
     note='Trusted: a normal -f run as ground truth (tied to the other modes by C10).',
     design='DESIGN.md §2 C12')
 
+CHECKS['C09'] = dict(level='exploration',
+    technique='runtime monitoring: transcoding-commutation oracle over an exhaustive Unicode scalar sweep, transcoded corpus, option table and invalid sequences',
+    text='All 1,112,064 scalar values (thorough; quick: seeded 1/8 + boundary blocks) are placed in a block comment, a // comment, string literals and identifiers, formatted by the real binary in UTF-8, UTF-8+BOM, UTF-16LE and UTF-16BE, and the outputs must be the transcodings of one another with the scalar sequence unchanged; corpus texts are transcoded likewise; the utf8_bom x utf8_force x input-encoding table is compared with the documented outcome; 21 invalid byte sequences in 4 positions must be refused or passed through byte-identically.',
+    note='Trusted: Python codecs as the reference transcoder.',
+    design='DESIGN.md §2 C09')
+CHECKS['C13'] = dict(level='fault_enumeration',
+    technique='fault injection on the real binary: strace SIGKILL at every syscall and error injection at every file syscall (singly, pairs), RLIMIT_FSIZE short writes; file-system snapshot oracle',
+    text='Per scenario (4 in-place modes x needs/formatted/fails x prior backup state x 3 sizes) a reference strace lists every syscall after the first touch of the source; every one is visited as a crash point (SIGKILL on entry) and every file syscall as a fault point (ENOSPC/EACCES/EIO), plus sampled fault pairs and real short writes via RLIMIT_FSIZE; after each run the directory snapshot must show the complete original or the complete formatted text, an intact backup when required, and a non-zero status for any failure. Exhaustive per scenario for single points.',
+    note='Trusted: strace injection ((INJECTED) marks are counted); atomicity of rename(2) and durability are the kernel\'s.',
+    design='DESIGN.md §2 C13')
+
 ALL = ['C%02d' % i for i in range(1, 21)]
 
 
